@@ -3,10 +3,12 @@
 TIER=${1:-quick}; shift
 IDS="${*:-C01 C02 C03 C04 C05 C06 C07 C08 C09 C10 C11 C12 C13 C14 C15 C16 C17 C18 C19 C20}"
 cd "$(dirname "$0")/.."
+FAILED=0
 for id in $IDS; do
   s=$(date +%s)
   ./check $id --tier $TIER > /tmp/run_all.$id.log 2>&1; rc=$?
   e=$(date +%s)
   echo "$id tier=$TIER exit=$rc wall=$((e-s))s $(grep -c '^VIOLATION' /tmp/run_all.$id.log) violations; $(tail -1 /tmp/run_all.$id.log | cut -c1-160)"
-  [ $rc -ne 0 ] && grep -A2 '^VIOLATION\|HARNESS' /tmp/run_all.$id.log | head -12 | cut -c1-300
+  if [ $rc -ne 0 ]; then FAILED=1; grep -A2 '^VIOLATION\|HARNESS' /tmp/run_all.$id.log | head -12 | cut -c1-300; fi
 done
+exit $FAILED
